@@ -395,11 +395,11 @@ func (en *Engine) verifyLemma(fc *FuncContract) (res *FuncResult) {
 	fr.entry = st
 	sc := &Scope{fr: fr, st: st, old: st, vars: map[string]Val{}, entry: map[string]Val{}, pkg: pkg}
 	for i, p := range fc.Params {
-		tv, err := types.Eval(en.Fset, pkg, token.NoPos, fc.PTypes[i])
-		if err != nil || tv.Type == nil {
+		pt := en.parseType(pkg, fc.PTypes[i])
+		if pt == nil {
 			panic(contractErr(fmt.Sprintf("lemma %s: cannot resolve type %q", fc.Name, fc.PTypes[i])))
 		}
-		v := fr.fresh("in_"+p, tv.Type)
+		v := fr.fresh("in_"+p, pt)
 		fr.assumeWF(st, v)
 		sc.vars[p] = v
 		sc.entry[p] = v
@@ -494,10 +494,17 @@ func (en *Engine) VerifyFunc(fc *FuncContract) (res *FuncResult) {
 	}
 	for _, gv := range fc.Ghosts {
 		v := fr.evalExpr(sc, gv.Init)
-		if t := fr.resolveTypeStr(sc, gv.Type); t != nil {
-			v = fr.coerceTo(v, t)
-		} else if v.K == KConst {
+		gt := en.parseType(fr.pkg, gv.Type)
+		switch {
+		case isNilConst(v) && gt != nil:
+			v = en.zero(gt)
+		case v.K == KConst && gt != nil:
+			v = fr.coerceTo(v, gt)
+		case v.K == KConst:
 			v = fr.coerceTo(v, types.Typ[types.Int])
+		}
+		if gt != nil && v.K == KNormal {
+			v.T = gt
 		}
 		st.ghost[gv.Name] = v
 	}
@@ -642,4 +649,33 @@ func (en *Engine) declaredMethod(fn *ssa.Function, t types.Type, m *types.Func) 
 		return fn
 	}
 	return fn
+}
+
+// parseType resolves a Go type written in a contract (as seen from package pkg).
+func (en *Engine) parseType(pkg *types.Package, s string) types.Type {
+	s = strings.TrimSpace(s)
+	switch {
+	case strings.HasPrefix(s, "*"):
+		if t := en.parseType(pkg, s[1:]); t != nil {
+			return types.NewPointer(t)
+		}
+		return nil
+	case strings.HasPrefix(s, "[]"):
+		if t := en.parseType(pkg, s[2:]); t != nil {
+			return types.NewSlice(t)
+		}
+		return nil
+	}
+	if i := strings.Index(s, "."); i > 0 && !strings.ContainsAny(s, "[]( ") {
+		if p := en.pkgByName(pkg, s[:i]); p != nil {
+			if tn, ok := p.Scope().Lookup(s[i+1:]).(*types.TypeName); ok {
+				return tn.Type()
+			}
+		}
+		return nil
+	}
+	if tv, err := types.Eval(en.Fset, pkg, token.NoPos, s); err == nil && tv.Type != nil {
+		return tv.Type
+	}
+	return nil
 }
